@@ -134,21 +134,21 @@ Section Sha.
     cbn [combine map fst]. f_equal. apply IH. cbn in H. lia.
   Qed.
 
-  Lemma tokens_at_most_once p reqs sched : tokens_issued sha256 false p reqs sched <= 1.
+  Lemma count_map {A} (g : A -> resp) (l : list A) :
+    count200 (map g l) = length (filter (fun x => is200 (g x)) l).
+  Proof.
+    unfold count200. induction l as [|x l' IH]; [reflexivity|]. cbn [map filter].
+    destruct (is200 (g x)); cbn [length]; rewrite IH; reflexivity.
+  Qed.
+
+  Lemma tokens_at_most_once present p reqs sched : tokens_issued sha256 false present p reqs sched <= 1.
   Proof.
     unfold tokens_issued, responses. cbn [fst snd].
-    destruct (one_deleter true sched) as [t0 Ht0].
-    set (tr := trace (exec true sched)) in *.
-    set (l := combine (seq 0 (length reqs)) reqs).
-    assert (Hlen : forall (g : nat * request -> resp),
-               length (filter (is200) (map g l)) = length (filter (fun x => is200 (g x)) l)).
-    { intros g. induction l as [|x l' IH]; [reflexivity|]. cbn [map filter].
-      destruct (is200 (g x)); cbn [length]; rewrite IH; reflexivity. }
-    rewrite Hlen.
-    apply (filter_le1 fst _ t0).
-    - unfold l. rewrite map_fst_combine; [apply seq_NoDup|apply seq_length].
+    destruct (one_deleter present sched) as [t0 Ht0].
+    rewrite count_map. apply (filter_le1 fst _ t0).
+    - unfold threads_of. rewrite map_fst_combine; [apply seq_NoDup|apply seq_length].
     - intros [t r] H. cbn [fst snd] in *. apply Ht0.
-      unfold respond in H. destruct (success tr t); [reflexivity|discriminate].
+      unfold respond in H. destruct (success (trace (exec present sched)) t); [reflexivity|discriminate].
   Qed.
 
   (* a token response implies that this thread's consume succeeded and its PKCE data matched *)
@@ -156,15 +156,15 @@ Section Sha.
     respond sha256 consumed p r = R200 -> consumed = true /\ grant sha256 p r = R200.
   Proof. unfold respond. destruct consumed; [auto|discriminate]. Qed.
 
-  Lemma refresh_at_most_once owner (reqs : list request) sched :
-    length (filter (fun x => is200 (respond_refresh (success (trace (exec true sched)) (fst x)) owner (snd x)))
-                   (combine (seq 0 (length reqs)) reqs)) <= 1.
+  Lemma refresh_at_most_once present owner (reqs : list request) sched :
+    count200 (responses_refresh false present owner reqs sched) <= 1.
   Proof.
-    destruct (one_deleter true sched) as [t0 Ht0].
-    apply (filter_le1 fst _ t0).
-    - rewrite map_fst_combine; [apply seq_NoDup|apply seq_length].
+    unfold responses_refresh.
+    destruct (one_deleter present sched) as [t0 Ht0].
+    rewrite count_map. apply (filter_le1 fst _ t0).
+    - unfold threads_of. rewrite map_fst_combine; [apply seq_NoDup|apply seq_length].
     - intros [t r] H. cbn [fst snd] in *. apply Ht0. unfold respond_refresh in H.
-      destruct (success (trace (exec true sched)) t); [reflexivity|discriminate].
+      destruct (success (trace (exec present sched)) t); [reflexivity|discriminate].
   Qed.
 End Sha.
 
@@ -181,5 +181,5 @@ Qed.
 (* with the old success criterion the endpoint itself issues two token responses *)
 Definition demo_p : pending := mkP [99%N] [117%N] [] [].
 Definition demo_r : request := mkR [99%N] [117%N] [] false.
-Lemma tokens_twice_old : tokens_issued (fun _ => []) true demo_p [demo_r; demo_r] bad_sched = 2.
+Lemma tokens_twice_old : tokens_issued (fun _ => []) true true demo_p [demo_r; demo_r] bad_sched = 2.
 Proof. vm_compute. reflexivity. Qed.
